@@ -1063,5 +1063,13 @@ def rule_decoder_entry(ctx, rule='C02.h'):
             detail or '%d paths' % len(ps))
 
 
+
+def rule_signedness(ctx):
+    """(shared C18.l)  Every frame field is read with the signedness it is written with: time-to-live, request counts,
+    lengths and positions are unsigned on the wire (rules/c18.py)."""
+    from .c18 import rule_signedness as rs
+    rs(ctx)
+
+
 RULES = [('C02.a', rule_a), ('C02.b', rule_b), ('C02.b', rule_b2), ('C02.c', rule_c), ('C02.d', rule_d), ('C02.e', rule_e),
-         ('C02.f', rule_f), ('C02.g', rule_g), ('C02.e', rule_tcp_writer), ('C02.h', rule_decoder_entry)]
+         ('C02.f', rule_f), ('C02.g', rule_g), ('C02.e', rule_tcp_writer), ('C02.h', rule_decoder_entry), ('C18.l', rule_signedness)]
